@@ -26,7 +26,8 @@ PREDS = {
     "C03": {"Inv_SharedCapacity", "Inv_ReservedCapacity", "Inv_IsolatedAllOrNone", "Inv_NonEmptyCpuset",
             "Inv_GrantMatchesEligibility", "Inv_SharesEncoding", "Inv_LiveHoldsGrant"},
     "C02": {"Inv_BalloonsDisjoint", "Inv_BalloonsWithinAllowed", "Inv_FreeCpusAreUnowned", "Inv_OneBalloonPerCtr",
-            "Inv_SharedIdleNotOwned", "Inv_MinMaxCpus", "Inv_MinMaxInstances", "Inv_NonEmptyHasCpus", "Inv_ToldIsCpusPlusShared"},
+            "Inv_SharedIdleNotOwned", "Inv_MinMaxCpus", "Inv_MinMaxInstances", "Inv_NonEmptyHasCpus", "Inv_ToldIsCpusPlusShared",
+            "Inv_SharedIdleCoversScope", "Inv_SharedIdleNotIsolated"},
     "C04": {"Inv_MemsFollowAllocator", "Inv_MemsNonEmptyExisting", "Inv_NoZoneOvercommit"},
     "C05": {"Inv_RuntimeEqualsCache", "Inv_NothingPending", "Act_NoUpdateToDead", "Act_AtMostOneUpdatePerCtr",
             "Act_AdjustmentDescribesCreated"},
@@ -35,20 +36,20 @@ PREDS = {
     "C14": {"Act_NoPanic", "Act_StillServes", "Act_Returns"},
 }
 
-DESIGN = {  # property -> (module, cfg, description)
-    "C01": ("MC_TopologyAware", "MC_TopologyAware.cfg", "TopologyAware on T1 (root + 2 NUMA pools, reserved + isolated CPU), 3 containers x 9 classes"),
-    "C03": ("MC_TopologyAware", "MC_TopologyAware.cfg", "TopologyAware on T1 (root + 2 NUMA pools, reserved + isolated CPU), 3 containers x 9 classes"),
-    "C09": ("MC_TopologyAware", "MC_TopologyAware.cfg", "TopologyAware on T1: Inv_Quiescent over every allocate/release interleaving"),
-    "C05": ("MC_Pipeline", "MC_Pipeline_quick.cfg", "Pipeline: 2 pods x 2 containers, nondeterministic policy writes and failures"),
-    "C14": ("MC_Pipeline", "MC_Pipeline_C14.cfg", "Pipeline with the unconstrained environment (any event, any id, any order)"),
-    "C12": ("MC_Pipeline", "MC_Pipeline_quick.cfg", "Pipeline (delivery of policy decisions); opt-out predicates are checked on real traces"),
-    "C02": ("MC_Balloons", "MC_Balloons.cfg", "Balloons on 8 CPUs (2 packages x 2 cores x 2 threads), 3 containers, 3 balloon types"),
-    "C04": ("MC_MemAlloc", "MC_MemAlloc_quick.cfg", "MemAlloc (libmem design) on 3-node layouts"),
+DESIGN = {  # property -> (module, quick cfg, thorough cfg, description)
+    "C01": ("MC_TopologyAware", "MC_TopologyAware.cfg", "MC_TopologyAware.cfg", "TopologyAware on T1 (root + 2 NUMA pools, reserved + isolated CPU), 3 containers x 9 classes"),
+    "C03": ("MC_TopologyAware", "MC_TopologyAware.cfg", "MC_TopologyAware.cfg", "TopologyAware on T1 (root + 2 NUMA pools, reserved + isolated CPU), 3 containers x 9 classes"),
+    "C09": ("MC_TopologyAware", "MC_TopologyAware.cfg", "MC_TopologyAware.cfg", "TopologyAware on T1: Inv_Quiescent over every allocate/release interleaving (balloons: Balloons.tla Inv_Quiescent in C02's run)"),
+    "C02": ("MC_Balloons", "MC_Balloons_quick.cfg", "MC_Balloons.cfg", "Balloons on 6 CPUs in 2 packages, 3 balloon types (dynamic/package-sharing, capped preferNew-like/system-sharing, pre-created), 2 (quick) or 3 (thorough) containers x 3 request sizes"),
+    "C05": ("MC_Pipeline", "MC_Pipeline_quick.cfg", "MC_Pipeline.cfg", "Pipeline: 1-2 pods x 2 containers, nondeterministic policy writes and failures, consistent runtime environment"),
+    "C12": ("MC_Pipeline", "MC_Pipeline_quick.cfg", "MC_Pipeline.cfg", "Pipeline (delivery of policy decisions); the opt-out predicates are checked on real traces"),
+    "C14": ("MC_Pipeline", "MC_Pipeline_C14_quick.cfg", "MC_Pipeline_C14.cfg", "Pipeline with the unconstrained environment (any event, any id, any order)"),
+    "C04": ("MC_MemAlloc", "MC_MemAlloc_quick.cfg", "MC_MemAlloc.cfg", "MemAlloc (libmem design) on 3-node layouts"),
 }
 
 
 def policies_for(pid):
-    both = os.environ.get("VERIF_L2_BALLOONS", "") != ""      # balloons half of the shared properties: being triaged
+    both = os.environ.get("VERIF_L2_TA_ONLY", "") == ""
     return ["ta"] if pid in ("C01", "C03") else ["balloons"] if pid == "C02" else (["ta", "balloons"] if both else ["ta"])
 
 
@@ -193,7 +194,8 @@ def run(ctx):
                                                          "samples": hs[:1]}, ["replay"], {"histories": hs})
 
     # 1. design check
-    mod, cfg, desc = DESIGN[pid]
+    mod, qcfg, tcfg, desc = DESIGN[pid]
+    cfg = qcfg if ctx.quick else tcfg
     mc = vlib.tlc(mod, cfg, ctx.path("mc"), workers=vlib.NCPU, timeout=600 if ctx.quick else 2400)
     if not mc["ok"]:
         raise vlib.Inconclusive("design model check did not pass: violated=%s error=%s\n%s" % (mc["violated"], mc["error"], mc["out"][-3000:]))
